@@ -12,6 +12,44 @@ THEOREMS = ['blocks_offsets', 'blocks_rows_sum', 'cost_eq_sum_blocks', 'deriv_bl
 short, scalar, close = X.short, X.scalar, X.close
 
 
+def gen_reread(rng, t, n):
+  """one or two re-parameterisations of leaves (incl. the device behind an adaptor) through public setters, as data:
+  new valid per-slot bounds (upper half of the box cut off), a new whole-horizon cumulative bound, or a curve parameter."""
+  F, fs = C.F, C.fs
+  blocks = gen.tree_leaves(t)
+  out = []
+  for bi in rng.sample(range(len(blocks)), min(len(blocks), rng.choice([1, 1, 2]))):
+    b = blocks[bi]; d = b['dev']; prm = d.get('prm', {})
+    lb = [F(x) for x in d['lb']]; hb = [F(x) for x in d['hb']]
+    wrapped = b['k'] == 'mf'
+    opts = []
+    w = sum(hb, F(0)) - sum(lb, F(0))
+    if w > 0:
+      lo = sum(lb, F(0))
+      opts += [('cbounds', [fs(lo + w/8), fs(lo + 5*w/8)])]*2
+    if not wrapped:
+      opts += [('bounds', [[fs(x) for x in lb], [fs(a + (c - a)/2) for a, c in zip(lb, hb)]])]*3
+    half = lambda v: [fs(F(x)/2) for x in v] if isinstance(v, list) else fs(F(v)/2)
+    mid = lambda u, v: ([fs((F(a) + F(c))/2) for a, c in zip(u, v)] if isinstance(u, list) else fs((F(u) + F(v))/2))
+    cls = d['cls']
+    if cls == 'CDevice':
+      opts.append(('a', half(prm['a'])))
+    elif cls in ('CDevice2', 'IDevice2') and isinstance(prm['p_l'], list) == isinstance(prm['p_h'], list):
+      opts.append(('p_h', mid(prm['p_l'], prm['p_h'])))
+    elif cls == 'IDevice':
+      opts.append(('c', half(prm['c'])))
+    elif cls == 'GDevice':
+      cc = prm['cost_coeffs']
+      opts.append(('cost_coeffs', [[fs(2*F(x)) for x in row] for row in cc] if isinstance(cc[0], list) else [fs(2*F(x)) for x in cc]))
+    elif cls == 'SDevice':
+      opts.append(('c1', fs(F(prm['c1']) + Fraction(1, 2))))
+    if not opts:
+      continue
+    attr, val = rng.choice(opts)
+    out.append({'block': bi, 'wrapped': wrapped, 'attr': attr, 'value': val})
+  return out
+
+
 class C02(Prop):
   id = 'C02'
   lean_module = 'DK.Props.C02'
@@ -25,7 +63,10 @@ class C02(Prop):
   assumptions = ['oracle: recomposition from the leaves\' own public API (cost, deriv, bounds, constraints) with offsets summed from the '
                  'leaves\' shapes; constraint lists compared as multisets (order of the list is not part of the property)',
                  'oracle: every tree constraint Jacobian is compared with central finite differences (h=1e-3) of its own fun along two directions at the permutation flow',
+                 'reread family (15 % of the cases, oracle only): the whole tree is read once, then leaves are re-parameterised through public setters (bounds / cbounds / a curve parameter; cbounds also on the device behind an adaptor), then the recomposition is repeated',
                  'T2 compares constraints as sorted projections (type/has-jac code, value), (code, jac.D), (code, value + jac.D) at the case flow']
+
+  reread_rate = 0.15
 
   def __init__(self):
     self.stats = {'depth': {}, 'price': {}, 'rows': {}, 'n': {}, 'multirow_children': 0, 'mf': 0, 'sub': 0, 'tworatio': 0, 'cases': 0}
@@ -36,8 +77,13 @@ class C02(Prop):
     for _ in range(count):
       t, n = X.gen_shape_tree(rng, tier)
       R = gen.tree_rows(t)
-      out.append({'tree': t, 'n': n, 'S': gen.tree_flow(rng, t, n), 'S0': gen.tree_flow(rng, t, n, 'mixed'),
-                  'P': X.gen_prices(rng, R, n), 'D': X.gen_dir(rng, R, n)})
+      case = {'tree': t, 'n': n, 'S': gen.tree_flow(rng, t, n), 'S0': gen.tree_flow(rng, t, n, 'mixed'),
+              'P': X.gen_prices(rng, R, n), 'D': X.gen_dir(rng, R, n)}
+      if rng.random() < self.reread_rate:
+        rr = gen_reread(rng, t, n)
+        if rr:
+          case['reread'] = rr
+      out.append(case)
     return out
 
   def _note(self, case):
@@ -104,26 +150,77 @@ class C02(Prop):
 
   # ------------------------------------------------------------------ oracle (implementation only)
   def oracle(self, case):
+    t = case['tree']
+    dev = build.build_tree(t)
+    fails = self._compare(dev, case, '', '')
+    if case.get('reread') and not fails:
+      fails += self._reread(case)
+    return fails[:3]
+
+  def _reread(self, case):
+    """build the tree, READ it once (bounds, constraints, cost, marginal cost, at every level), then re-parameterise one or
+    two leaves through their public setters, then the tree must still agree with its leaves."""
     n_ = X.np()
-    dk = C.repo()
     t, n = case['tree'], case['n']
     dev = build.build_tree(t)
     blocks = X.impl_blocks(dev)
+    R = sum(b[1] for b in blocks)
+    S = n_.array([[float(r + 1 + (R + 1)*i) for i in range(n)] for r in range(R)])
+    try:
+      for _, _, node in X.impl_nodes(dev) + [(0, 0, b[2]) for b in blocks if X.is_adaptor(b[2])]:
+        node.bounds; node.lbounds; node.hbounds; node.shape; node.partition
+        for c in node.constraints:
+          k = int(node.shape[0])
+          c['fun'](S[:k].reshape(-1))
+          if 'jac' in c:
+            c['jac'](S[:k].reshape(-1))
+      dev.cost(S, 1.0); dev.deriv(S, 1.0); dev.leaf_devices()
+    except Exception as e:
+      return [{'key': {'cls': type(dev).__name__, 'kind': 'raises'}, 'detail': 'first read of the tree raised %s: %s | n=%d tree=%s' % (type(e).__name__, str(e)[:160], n, short(t))}]
+    done = []
+    for m in case['reread']:
+      off, k, blk, path = blocks[m['block']]
+      target = blk.to_dict()['device'] if m['wrapped'] else blk
+      if m['attr'] == 'bounds':
+        val = n_.stack((n_.array(build.jf(m['value'][0])), n_.array(build.jf(m['value'][1]))), axis=1)
+      elif m['attr'] == 'cbounds':
+        val = (C.pf(m['value'][0]), C.pf(m['value'][1]))
+      else:
+        val = build.jf(m['value']) if isinstance(m['value'], list) and m['value'] and isinstance(m['value'][0], list) else build.fv(m['value'])
+      try:
+        setattr(target, m['attr'], val)
+        done.append('%s%s.%s = %s' % ('.'.join(path), ' (wrapped device)' if m['wrapped'] else '', m['attr'], json.dumps(m['value'])))
+      except ValueError:
+        self.stats['reread_setter_rejected'] = self.stats.get('reread_setter_rejected', 0) + 1
+    self.stats['reread_cases'] = self.stats.get('reread_cases', 0) + 1
+    if not done:
+      return []
+    self.stats['reread_applied'] = self.stats.get('reread_applied', 0) + len(done)
+    return self._compare(dev, case, 'reread-', ' | after reading bounds/constraints/cost of the whole tree once and THEN assigning ' + '; '.join(done))
+
+  def _compare(self, dev, case, kp, note):
+    n_ = X.np()
+    dk = C.repo()
+    t, n = case['tree'], case['n']
+    blocks = X.impl_blocks(dev)
     R = sum(k for _, k, _, _ in blocks)
     fails = []
-    where = ' | n=%d tree=%s' % (n, short(t))
+    where = note + ' | n=%d tree=%s' % (n, short(t))
 
     def fail(kind, detail, cls=None):
-      fails.append({'key': {'cls': cls or type(dev).__name__, 'kind': kind}, 'detail': detail + where})
+      fails.append({'key': {'cls': cls or type(dev).__name__, 'kind': kp + kind}, 'detail': detail + where})
 
     if tuple(int(x) for x in dev.shape) != (R, n):
       fail('shape', 'shape is %s but the leaves own %d rows of %d slots' % (tuple(dev.shape), R, n))
       return fails
-    Sperm = build.arr(X.perm_flow(R, n))
+    # permutation-detecting flow, integer-valued: cell (r, i) holds (r+1) + (R+1)*i  (all cells different, all >= 1)
+    Sperm = n_.array([[float(r + 1 + (R + 1)*i) for i in range(n)] for r in range(R)])
+    SpermI = Sperm.astype(int)      # the same flow handed over as an INTEGER-typed array (callers do: np.arange, literals)
     Pperm = n_.array([[(r + 1)/4.0 + i/32.0 for i in range(n)] for r in range(R)])
-    probes = [('row r filled with r+1 (+slot/16)', Sperm, 'P[r][i]=(r+1)/4+i/32', Pperm)]
+    pname0 = 'cell (r,i) = (r+1)+(R+1)*i'
+    probes = [(pname0, Sperm, 'P[r][i]=(r+1)/4+i/32', Pperm)]
     if len(case.get('S', [])) == R:
-      probes.append(('S=%s' % json.dumps(case['S']), build.arr(case['S']), 'P=%s' % json.dumps(case['P']), build.price(case['P'])))
+      probes.append(('S=%s' % json.dumps(case['S']), build.arr(case['S']).astype(float), 'P=%s' % json.dumps(case['P']), build.price(case['P'])))
 
     def rows_of(b):
       return '%s rows %d..%d' % ('.'.join(b[3]), b[0], b[0] + b[1] - 1)
@@ -131,9 +228,13 @@ class C02(Prop):
     # ---- cost and marginal cost: sum / stack of the leaves' own values on their own rows
     for sname, S, pname, P in probes:
       Pf = X.full_prices(P, R, n)
-      parts = [float(blk.cost(S[off:off + k, :], Pf[off:off + k, :])) for off, k, blk, _ in blocks]
+      try:
+        parts = [float(blk.cost(S[off:off + k, :], Pf[off:off + k, :])) for off, k, blk, _ in blocks]
+        dparts = [n_.array(blk.deriv(S[off:off + k, :], Pf[off:off + k, :]), dtype=float).reshape(k, n) for off, k, blk, _ in blocks]
+      except Exception as e:
+        fail('leaf-raises', 'a leaf cost/deriv raised %s: %s on its own rows; flow %s, %s' % (type(e).__name__, str(e)[:120], sname, pname))
+        return fails
       exp = sum(parts); scale = max(1.0, sum(abs(x) for x in parts if x == x))
-      dparts = [n_.array(blk.deriv(S[off:off + k, :], Pf[off:off + k, :]), dtype=float).reshape(k, n) for off, k, blk, _ in blocks]
       dexp = n_.vstack(dparts)
       got = {}
       for shp in ('mat', 'flat'):
@@ -172,31 +273,48 @@ class C02(Prop):
       fail('bounds', 'bounds has shape %s, expected (%d, 2)' % (bgot.shape, R*n))
     elif not close(bgot, bexp):
       kbad = int(n_.argmax(n_.abs(bgot - bexp).max(axis=1)))
-      fail('bounds', 'flat bounds entry %d (row %d slot %d) is %s but the owning leaf has %s' % (kbad, kbad // n, kbad % n, bgot[kbad].tolist(), bexp[kbad].tolist()))
+      own = [b for b in blocks if b[0] <= kbad // n < b[0] + b[1]][0]
+      fail('bounds', 'flat bounds entry %d (row %d slot %d) is %s but the owning leaf (%s) has %s' % (kbad, kbad // n, kbad % n, bgot[kbad].tolist(), rows_of(own), bexp[kbad].tolist()))
+    for nm, col in (('lbounds', 0), ('hbounds', 1)):
+      v = n_.array(getattr(dev, nm), dtype=float).reshape(-1)
+      if v.shape != (R*n,) or not close(v, bexp[:, col]):
+        fail('bounds', '%s does not equal the concatenated leaf %s' % (nm, nm))
 
     # ---- constraints: every leaf constraint, evaluated on exactly that leaf's rows, is one of the tree's
     flows = [p[1] for p in probes]
+    tflows = [SpermI] + flows[1:]          # what the TREE is given: the integer-typed array for the permutation flow
     try:
       tcons = dev.constraints
       T = []
-      for c in tcons:
-        vf = [scalar(c['fun'](S.reshape(-1))) for S in flows]
-        vs = [scalar(c['fun'](S)) for S in flows]
+      for ti, c in enumerate(tcons):
+        vf = [scalar(c['fun'](S.reshape(-1))) for S in tflows]
+        vs = [scalar(c['fun'](S)) for S in tflows]
         if not close(vf, vs):
           fail('flat-vs-shaped', 'a tree constraint gives %s on flat flows and %s on the same flows matrix-shaped' % (vf, vs))
-        jac = n_.array(c['jac'](Sperm.reshape(-1)), dtype=float) if 'jac' in c else None
+        v0 = scalar(c['fun'](Sperm.reshape(-1)))
+        if not close(v0, vf[0]):
+          fail('constraint-dtype', 'tree constraint #%d gives %.12g on the integer-typed flow and %.12g on the same flow as floats (flow: %s)' % (ti, vf[0], v0, pname0))
+        jac = n_.array(c['jac'](SpermI.reshape(-1)), dtype=float) if 'jac' in c else None
         if jac is not None and jac.size != R*n:
           fail('constraint-jac', 'a tree constraint Jacobian has %d entries for %d flow variables' % (jac.size, R*n))
           return fails
+        if jac is not None:
+          jf_ = n_.array(c['jac'](Sperm.reshape(-1)), dtype=float)
+          js_ = n_.array(c['jac'](SpermI), dtype=float)
+          if not close(jac.reshape(-1), jf_.reshape(-1)) or not close(jac.reshape(-1), js_.reshape(-1)):
+            cells = n_.argwhere(n_.abs(jac.reshape(R, n) - jf_.reshape(R, n)) > 1e-9).tolist()[:6]
+            fail('constraint-jac-dtype', 'tree constraint #%d (%s): its Jacobian on the INTEGER-typed flow (np.array(..., dtype=int), %s) is %s but on the same flow as floats it is %s '
+                 '(cells %s differ)' % (ti, c['type'], pname0, jac.reshape(R, n).tolist(), jf_.reshape(R, n).round(9).tolist(), cells))
+            return fails
         T.append((c['type'], vf, None if jac is None else jac.reshape(R, n)))
     except Exception as e:
-      fail('constraint-raises', 'evaluating the tree constraints raised %s: %s (flow: %s)' % (type(e).__name__, str(e)[:160], probes[0][0]))
+      fail('constraint-raises', 'evaluating the tree constraints raised %s: %s (flow: %s, integer-typed)' % (type(e).__name__, str(e)[:160], probes[0][0]))
       return fails
     # ---- each re-wrapped Jacobian is the gradient of the re-wrapped function: directional finite differences of `fun`
     # at the permutation flow (all entries >= 1: away from the kinks at zero), then per cell to name the wrong entries
     dirs = [n_.array([[(((r*n + i)*37) % 11 - 5)/4.0 for i in range(n)] for r in range(R)])]
     if len(case.get('D', [])) == R:
-      dirs.append(build.arr(case['D']))
+      dirs.append(build.arr(case['D']).astype(float))
     h = 1e-3
     try:
       for ti, c in enumerate(tcons):
@@ -219,49 +337,86 @@ class C02(Prop):
     except Exception as e:
       fail('constraint-raises', 'evaluating a tree constraint near the flow "%s" raised %s: %s' % (probes[0][0], type(e).__name__, str(e)[:160]))
       return fails
-    if fails and fails[-1]['key']['kind'] == 'constraint-jac':
+    if fails and fails[-1]['key']['kind'] == kp + 'constraint-jac':
       return fails[:3]
-    E = []
-    for b in blocks:
-      off, k, blk, path = b
-      for ci, c in enumerate(blk.constraints):
-        vals = [scalar(c['fun'](S[off:off + k, :])) for S in flows]
-        jac = None
-        if 'jac' in c:
-          jac = n_.zeros((R, n)); jac[off:off + k, :] = n_.array(c['jac'](Sperm[off:off + k, :]), dtype=float).reshape(k, n)
-        E.append((c['type'], vals, jac, b, ci))
-    own = 0
-    for _, _, node in X.impl_nodes(dev):
-      sb = node.sbounds
-      if sb is not None:
-        own += sum(1 if sb[i][0] == sb[i][1] else 2 for i in range(n))
-      if isinstance(node, dk.SubBalancedDeviceSet):
-        own += (len(node.labels) + (1 if node.apply_to_remaining else 0))*n
-    if len(T) != len(E) + own:
-      fail('constraint-count', 'the tree has %d constraints; its leaves have %d and its nodes add %d of their own' % (len(T), len(E), own))
+
     Tv = n_.array([x[1] for x in T], dtype=float).reshape(len(T), len(flows))
-    used = n_.zeros(len(T), dtype=bool)
-    for pos, (ty, vals, jac, b, ci) in enumerate(E):
-      v = n_.array(vals, dtype=float)
-      cand = n_.where(~used & (n_.abs(Tv - v) <= 1e-9*n_.maximum(1.0, n_.abs(v))).all(axis=1))[0] if len(T) else []
-      hit = None
-      for ti in cand:
-        tt, _, tj = T[ti]
-        if tt != ty or (tj is None) != (jac is None):
-          continue
-        if jac is not None and not close(tj, jac):
-          continue
-        hit = ti; break
-      if hit is None:
-        near = ''
-        if pos < len(T):
-          near = '; the tree constraint at the same list position is (%s, %s%s)' % (T[pos][0], T[pos][1], '' if T[pos][2] is None or jac is None else
-                 ', jac rows non-zero: %s vs leaf rows %d..%d' % (sorted(set(n_.nonzero(T[pos][2])[0].tolist())), b[0], b[0] + b[1] - 1))
-        fail('constraint', 'constraint #%d of %s (%s) has values %s on exactly its own rows (flows: %s%s) and %s, but no tree constraint has these values with the '
-             'zero-padded Jacobian%s' % (ci, rows_of(b), ty, vals, probes[0][0], '; case S' if len(flows) > 1 else '',
-                                         'a Jacobian' if jac is not None else 'no Jacobian', near), type(b[2]).__name__)
-        break
-      used[hit] = True
+
+    def match_all(E, what):
+      """every expected (type, values, padded Jacobian) is a distinct tree constraint; returns the used mask or None."""
+      used = n_.zeros(len(T), dtype=bool)
+      for pos, (ty, vals, jac, b, ci) in enumerate(E):
+        v = n_.array(vals, dtype=float)
+        cand = n_.where(~used & (n_.abs(Tv - v) <= 1e-9*n_.maximum(1.0, n_.abs(v))).all(axis=1))[0] if len(T) else []
+        hit = None
+        for ti in cand:
+          tt, _, tj = T[ti]
+          if tt != ty or (tj is None) != (jac is None):
+            continue
+          if jac is not None and not close(tj, jac):
+            continue
+          hit = ti; break
+        if hit is None:
+          near = ''
+          if pos < len(T) and what == 'leaf':
+            near = '; the tree constraint at the same list position is (%s, %s%s)' % (T[pos][0], T[pos][1], '' if T[pos][2] is None or jac is None else
+                   ', jac rows non-zero: %s vs leaf rows %d..%d' % (sorted(set(n_.nonzero(T[pos][2])[0].tolist())), b[0], b[0] + b[1] - 1))
+          fail('constraint', 'constraint #%d of %s%s (%s) has values %s on exactly its own rows (flows: %s%s) and %s, but no tree constraint has these values with the '
+               'zero-padded Jacobian%s' % (ci, 'the device wrapped by ' if what == 'wrapped' else '', rows_of(b), ty, vals, probes[0][0], '; case S' if len(flows) > 1 else '',
+                                           'a Jacobian' if jac is not None else 'no Jacobian', near), type(b[2]).__name__)
+          return None
+        used[hit] = True
+      return used
+
+    try:
+      E, W = [], []
+      for b in blocks:
+        off, k, blk, path = b
+        for ci, c in enumerate(blk.constraints):
+          vals = [scalar(c['fun'](S[off:off + k, :])) for S in flows]
+          jac = None
+          if 'jac' in c:
+            jac = n_.zeros((R, n)); jac[off:off + k, :] = n_.array(c['jac'](Sperm[off:off + k, :]), dtype=float).reshape(k, n)
+          E.append((c['type'], vals, jac, b, ci))
+        if X.is_adaptor(blk):
+          # the device behind an adaptor: its CURRENT constraints act on the sum of the conduits, Jacobian repeated per conduit row
+          for ci, c in enumerate(blk.to_dict()['device'].constraints):
+            vals = [scalar(c['fun'](S[off:off + k, :].sum(axis=0))) for S in flows]
+            jac = None
+            if 'jac' in c:
+              jac = n_.zeros((R, n)); jac[off:off + k, :] = n_.array(c['jac'](Sperm[off:off + k, :].sum(axis=0)), dtype=float).reshape(1, n)
+            W.append((c['type'], vals, jac, b, ci))
+    except Exception as e:
+      fail('leaf-raises', 'evaluating a leaf constraint on its own rows raised %s: %s' % (type(e).__name__, str(e)[:160]))
+      return fails
+    used = match_all(E, 'leaf')
+    if used is not None and W:
+      match_all(W, 'wrapped')
+    if used is not None:
+      # every remaining tree constraint must be one of some node's documented own constraints (aggregate bounds per slot,
+      # label balancing per slot); how many of those a node emits is not C02's business
+      cands = []
+      for off, rows, node in X.impl_nodes(dev):
+        sb = node.sbounds
+        if sb is not None:
+          for i in range(n):
+            cs = n_.array([S[off:off + rows, i].sum() for S in flows])
+            cands += [cs - float(sb[i][0]), float(sb[i][1]) - cs]
+        if isinstance(node, dk.SubBalancedDeviceSet):
+          rel = X.impl_labels(node)
+          sets = [[r for r, l in enumerate(rel) if l.endswith(str(lab))] for lab in node.labels]
+          sets.append([r for r in range(len(rel)) if not any(r in st for st in sets)])
+          for st in sets:
+            for i in range(n):
+              cands.append(n_.array([float(node.sign)*sum(S[off + r, i] for r in st) for S in flows]))
+      Cv = n_.array(cands, dtype=float).reshape(len(cands), len(flows)) if cands else n_.zeros((0, len(flows)))
+      for ti in n_.where(~used)[0]:
+        v = Tv[ti]
+        tol = 1e-9*n_.maximum(1.0, n_.abs(v))
+        if not (len(Cv) and ((n_.abs(Cv - v) <= tol).all(axis=1) | (n_.abs(Cv + v) <= tol).all(axis=1)).any()):
+          fail('constraint-extra', 'tree constraint #%d (%s, values %s at the probe flows) is neither a leaf constraint on that leaf\'s rows nor an aggregate-bound / '
+               'label-balance constraint of any node on its own row range' % (ti, T[ti][0], T[ti][1]))
+          break
     return fails[:3]
 
   def nontrivial(self, case):
